@@ -29,6 +29,7 @@ import os
 import re
 
 import vf
+import x03au   # sibling tier: audience / CD partition at bit level in forwarder mode (Ecs.tla), see checks/x03au.py
 
 MOD = "CacheKey"
 
@@ -215,6 +216,8 @@ def run(ctx, replay_path):
             rep = json.load(f)
         r = rep.get("replay", {})
         ctx.seed = int(rep.get("seed", ctx.seed))
+        if r.get("driver") == "audience":      # a case recorded by the X03AU tier
+            return x03au.replay_case(ctx, r)
         if "behaviour" not in r:
             raise vf.MachineryError("replay file carries no behaviour (key-parity cases replay through the seed)")
         tb = tables(ctx)
@@ -222,6 +225,9 @@ def run(ctx, replay_path):
                                                                 "indexOffset": r.get("behaviourIndex", 0)})
         return
 
+    # ---- audience / CD partition with concrete prefixes of both families, policy defaults, the allow-list and a
+    # real downstream (forwarder + scripted upstream): Ecs.tla, sibling tier X03AU (GAP seeded/C03-r3-1..3) ----------
+    x03au.run_tier(ctx)
     tb = tables(ctx)
     # ---- model ------------------------------------------------------------
     skip_mc = bool(os.environ.get("VERIF_C03_SKIP_MC"))
